@@ -42,13 +42,21 @@ PunctTable == [AT |-> <<1>>, BQ |-> <<1>>, LB |-> <<1>>, LC |-> <<1>>, BSL |-> <
                D0 |-> <<1>>, C10 |-> <<1>>, D9 |-> <<1>>, C19 |-> <<1>>, SP |-> <<1>>, NUL |-> <<1>>,
                DASH |-> <<1>>, CR |-> <<1>>]
 
+(* CASELESS runes of two, three and four bytes (singleton orbits): Latin-1    *)
+(* symbols such as U+00A7 section sign or U+00D7 multiplication sign fit in a  *)
+(* byte as code points but not as UTF-8; U+2022 bullet; U+1F600.  As the first *)
+(* rune of the needle they take the "no case variants" route of a scan, and    *)
+(* their continuation bytes occur inside other runes (U+00E7 ends in the same  *)
+(* byte as U+00A7).                                                           *)
+CaselessTable == [SEC |-> <<2>>, MUL |-> <<2>>, BUL |-> <<3>>, EMO |-> <<4>>]
+
 ModelTable == [K   |-> <<1, 1, 3>>,
                S   |-> <<1, 1, 2>>,
                SIG |-> <<2, 2, 2>>,
                A   |-> <<1, 1>>,
                E   |-> <<2, 2>>,
                ONE |-> <<1>>]
-            @@ PunctTable
+            @@ PunctTable @@ CaselessTable
 
 AlphaP1 == {<<"AT", 1>>, <<"BQ", 1>>, <<"LB", 1>>, <<"LC", 1>>, <<"BSL", 1>>, <<"PIPE", 1>>, <<"A", 1>>, <<"A", 2>>}
 AlphaP2 == {<<"RB", 1>>, <<"RC", 1>>, <<"CARET", 1>>, <<"TILDE", 1>>, <<"US", 1>>, <<"DEL", 1>>, <<"A", 1>>, <<"A", 2>>}
@@ -57,6 +65,10 @@ AlphaP3 == {<<"D0", 1>>, <<"C10", 1>>, <<"D9", 1>>, <<"C19", 1>>, <<"SP", 1>>, <
 (* punctuation that differs from a letter-range neighbour only in bit 0x20, mixed with letters of both cases *)
 AlphaP4 == {<<"LB", 1>>, <<"LC", 1>>, <<"BSL", 1>>, <<"PIPE", 1>>, <<"CARET", 1>>, <<"TILDE", 1>>, <<"K", 1>>, <<"K", 2>>}
 FamiliesPunct == {AlphaP1, AlphaP2, AlphaP3, AlphaP4}
+
+AlphaC1 == {<<"SEC", 1>>, <<"MUL", 1>>, <<"BUL", 1>>, <<"EMO", 1>>, <<"A", 1>>, <<"A", 2>>, <<"E", 2>>, <<"ONE", 1>>}
+AlphaC2 == {<<"SEC", 1>>, <<"BUL", 1>>, <<"E", 1>>, <<"E", 2>>, <<"S", 3>>, <<"K", 3>>, <<"DASH", 1>>}
+FamiliesCaseless == {AlphaC1, AlphaC2}
 
 AlphaK   == {<<"K", 1>>, <<"K", 2>>, <<"K", 3>>, <<"A", 2>>, <<"E", 1>>, <<"ONE", 1>>}
 AlphaS   == {<<"S", 1>>, <<"S", 2>>, <<"S", 3>>, <<"A", 1>>, <<"E", 2>>, <<"ONE", 1>>}
